@@ -120,8 +120,8 @@ macro_rules! proofs {
     )*};
 }
 
-// @harness c05_cover_n1d2_k2 tier=quick unwind=5 block=64 mem=24 timeout=2400
-// @harness c05_cover_n1d2_k2_reach tier=quick unwind=5 block=64 mem=24 timeout=2400 twin
+// @harness c05_cover_n1d2_k2 tier=quick unwind=5 block=64 mem=11 timeout=1905
+// @harness c05_cover_n1d2_k2_reach tier=quick unwind=5 block=64 mem=10 timeout=1200 twin
 // @harness c05_cover_n1d2_k3 tier=thorough unwind=6 block=128 mem=44 timeout=3600 stretch
 // @harness c05_cover_n2d2_k2 tier=thorough unwind=7 block=128 mem=46 timeout=3600 stretch
 // @harness c05_cover_n1d3_k2 tier=thorough unwind=6 block=128 mem=44 timeout=3600 stretch
